@@ -48,6 +48,9 @@ func (p *Parser) Parse() (ast.Tree, error) {
 		case next.Is(token.HASH):
 			comment := p.parseComment()
 			switch {
+			case strings.TrimSpace(comment.Text) == "":
+				// A comment with nothing in it documents nothing, keep it where it is
+				tree.Append(comment)
 			case p.next().Is(token.TASK):
 				// The comment was a tasks' docstring
 				task, err := p.parseTask(comment)
